@@ -59,6 +59,45 @@ def make_func(params, defaults, log):
     return ns["f"]
 
 
+class RecordingCache(SimpleCache):
+    """A SimpleCache that remembers every key `memoize` hands to it: the key of every call, hit or miss — the observation the
+    property talks about (what `memoize` REALLY looks up), not a key the harness computes with `to_hashable` on its own."""
+
+    def __init__(self):
+        super().__init__()
+        self.asked, self.stored = [], []
+
+    def __contains__(self, key):
+        self.asked.append(key)
+        return super().__contains__(key)
+
+    def put(self, key, value):
+        self.stored.append(key)
+        return super().put(key, value)
+
+    def key_of_last_call(self, n_asked, n_stored):
+        """the key used since the marks `n_asked`, `n_stored` were taken (None: memoize did not touch the cache)"""
+        if len(self.asked) > n_asked:
+            return ("ok", self.asked[-1])
+        if len(self.stored) > n_stored:
+            return ("ok", self.stored[-1])
+        return ("none", None)
+
+
+VAR_SIGS = {
+    "var": "def f(*args, **kwargs):\n    _log.append((args, kwargs))\n    return Res(len(_log) - 1)\n",
+    "mixed": "def f(a, b=_d_b, *args, **kwargs):\n    _log.append((a, b, args, kwargs))\n    return Res(len(_log) - 1)\n",
+    "opt": "def f(x, label=None, **options):\n    _log.append((x, label, options))\n    return Res(len(_log) - 1)\n",
+}
+
+
+def make_varfunc(kind, default_b, log):
+    """functions that accept a value positionally AND as a keyword (`*args` / `**kwargs` / an optional parameter)"""
+    ns = {"_log": log, "Res": Res, "_d_b": default_b}
+    exec(VAR_SIGS[kind], ns)  # noqa: S102
+    return ns["f"]
+
+
 # ------------------------------------------------------------------------------------------------ model encodings
 def enc_kw(enc, kwargs: dict):
     return [[cp(k), enc.enc(v)] for k, v in kwargs.items()]
@@ -107,6 +146,72 @@ def gen_invalid(rng, params, pool_n):
     return [rng.randrange(pool_n) for _ in range(npos)], {k: rng.randrange(pool_n) for k in kw}
 
 
+KW_NAMES = ["a", "b", "label", "tol", "k"]
+
+
+def call_lookalikes(rng, A, K):  # noqa: C901, PLR0912
+    """Calls that LOOK like the call `f(*A, **K)` (specs) under another way of laying the arguments out: what a key built from a
+    flattened / re-grouped / re-labelled `(args, kwargs)` would confuse.  Every one of them passes other arguments."""
+    items = [["tuple", [["str", n], v]] for n, v in K.items()]
+    srt = [["tuple", [["str", n], K[n]]] for n in sorted(K)]
+    out = []
+    if K:
+        out.append((A + srt, {}))                                            # keywords as trailing (name, value) pairs, sorted
+        out.append((A + items, {}))                                          # … in the order written
+        n0 = rng.choice(list(K))
+        out.append((A + [["tuple", [["str", n0], K[n0]]]], {n: v for n, v in K.items() if n != n0}))   # … one of them only
+        out.append((A + [["dict", [[["str", n], v] for n, v in K.items()]]], {}))                    # the kwargs dict as last positional
+        out.append((A + [["tuple", srt]], {}))                                # the sorted items as ONE tuple
+        out.append((A + [["fset", srt]] if all(_hashable_spec(x) for x in srt) else A + [["list", srt]], {}))
+        out.append((A + [x for n in sorted(K) for x in (["str", n], K[n])], {}))                     # names and values flattened
+        out.append((A, {rng.choice([m for m in KW_NAMES if m not in K] or ["zz"]) if i == 0 else n: v
+                        for i, (n, v) in enumerate(K.items())}))               # one keyword renamed
+        out.append((A + list(K.values()), {}))                                # keyword values passed positionally
+        if len(K) > 1:
+            ns = list(K)
+            out.append((A, dict(zip(ns, [K[n] for n in ns[1:] + ns[:1]]))))   # the values move to the next name
+        out.append((A, {n: v for n, v in K.items() if n != n0}))              # one keyword left out
+        out.append((A, {n: (["none"] if n == n0 else v) for n, v in K.items()}))   # … passed as None
+    free = [m for m in KW_NAMES if m not in K]
+    if free:
+        out.append((A, {**K, rng.choice(free): rng.choice([["none"], ["int", 0], ["bool", False], ["tuple", []]])}))   # an extra falsy keyword
+    out.append((A + [rng.choice([["none"], ["int", 0], ["bool", False]])], dict(K)))   # an extra falsy positional
+    out.append(([["tuple", A], ["dict", [[["str", n], v] for n, v in K.items()]]], {}))             # (args, kwargs) as two positionals
+    out.append(([["tuple", [["tuple", A], ["dict", [[["str", n], v] for n, v in K.items()]]]]], {}))  # … as one
+    out.append(([["tuple", A]], dict(K)))                                     # the positionals as one tuple
+    out.append((A + [["tuple", []]], dict(K)))
+    out.append((A + [["dict", []]], dict(K)))
+    if A:
+        free = [m for m in KW_NAMES if m not in K]
+        if free:
+            out.append((A[:-1], {**K, rng.choice(free): A[-1]}))              # the last positional as a keyword
+        if A[-1][0] == "tuple" and len(A[-1][1]) == 2 and A[-1][1][0][0] == "str" and A[-1][1][0][1] not in K:
+            out.append((A[:-1], {**K, A[-1][1][0][1]: A[-1][1][1]}))          # a trailing (name, value) pair as that keyword
+        if len(A) > 1:
+            out.append((A[1:] + A[:1], dict(K)))                              # positional order
+            out.append((A[:-2] + [["tuple", A[-2:]]], dict(K)))               # the last two grouped
+        if A[-1][0] in ("tuple", "list") and A[-1][1]:
+            out.append((A[:-1] + A[-1][1], dict(K)))                          # the last one splatted
+    return out
+
+
+def _hashable_spec(s):
+    try:
+        hash(V.build(s))
+        return True
+    except Exception:  # noqa: BLE001
+        return False
+
+
+def _has_obj(spec) -> bool:
+    return '"obj"' in V.dumps(spec)
+
+
+def _call_spec(A, K):
+    """the `(args, kwargs)` pair of a call as one value spec (finding matchers and replays read `a` / `b` of a case)"""
+    return ["tuple", [["tuple", list(A)], ["dict", [[["str", n], v] for n, v in K.items()]]]]
+
+
 class CallCheck:
     """One batch of values (`pool`: specs, objects, model encodings) shared by the three streams."""
 
@@ -135,6 +240,12 @@ class CallCheck:
     # -- helpers
     def same(self, i, j):
         return V.py_same(self.vals[i], self.vals[j])
+
+    def same_key_expected(self, i, j):
+        """`same`, and the implementation can be expected to give the two values the same key: the digest of a pickle is not a
+        function of the value (False / 0, sharing, insertion histories inside the object), so objects that reach the pickle
+        fallback count only when they were built from identical specs"""
+        return self.same(i, j) and (not (_has_obj(self.specs[i]) or _has_obj(self.specs[j])) or V.dumps(self.specs[i]) == V.dumps(self.specs[j]))
 
     def same_eff(self, e1, e2):
         return e1.keys() == e2.keys() and all(V.py_same(e1[k], e2[k]) for k in e1)
@@ -175,13 +286,26 @@ class CallCheck:
                 for pos_names, kw_names in passing_styles(rng, params, with_default, assign, 1):
                     calls.append(([assign[p] for p in pos_names], {k: assign[k] for k in kw_names}))
             sig = None
-            for cname, cache in self.caches():
+            self.real_keys = None
+            hits_simple = []
+            for cname, cache in self.caches() + [("recording", RecordingCache())]:
                 log = []
                 f = make_func(params, defaults, log)
                 sig = sig or inspect.signature(f)
                 g = memoize(cache=cache)(f)
                 stored = []                                    # (call number -> (position in calls, effective arguments))
                 hits = []
+                if cname == "recording":                       # the keys memoize really uses, one per call
+                    self.real_keys = []
+                    for args_i, kw_i in calls[:12]:
+                        na, ns = len(cache.asked), len(cache.stored)
+                        try:
+                            g(*[self.vals[i] for i in args_i], **{k: self.vals[i] for k, i in kw_i.items()})
+                            self.real_keys.append(cache.key_of_last_call(na, ns))
+                        except Exception as e:  # noqa: BLE001
+                            self.real_keys.append(("exc", pfimport.exc_enum(e)))
+                    self.model_memo(params, d_idx, calls, hits_simple)
+                    continue
                 for pos, (args_i, kw_i) in enumerate(calls):
                     args = [self.vals[i] for i in args_i]
                     kwargs = {k: self.vals[i] for k, i in kw_i.items()}
@@ -204,8 +328,8 @@ class CallCheck:
                         # the same values passed in the same way as a stored call must have been a hit
                         for p0, _e0 in (stored[:-1] if cname != "disk" else []):   # DiskCache: keyed by the pickled key (1 is not True)
                             a0, k0 = calls[p0]
-                            if (len(a0) == len(args_i) and k0.keys() == kw_i.keys() and all(self.same(x, y) for x, y in zip(a0, args_i))
-                                    and all(self.same(k0[k], kw_i[k]) for k in kw_i)):
+                            if (len(a0) == len(args_i) and k0.keys() == kw_i.keys() and all(self.same_key_expected(x, y) for x, y in zip(a0, args_i))
+                                    and all(self.same_key_expected(k0[k], kw_i[k]) for k in kw_i)):
                                 ctx.violation({**case, "earlier": self.spec_call(a0, k0)}, f"memoize({cname}) recomputed a call that passes "
                                               "the same values in the same way as a stored call (equal values, different keys)")
                                 break
@@ -214,14 +338,146 @@ class CallCheck:
                     ctx.count(f"calls:memoize:{cname}:hit")
                     src = stored[res.n] if isinstance(res, Res) and res.n < len(stored) else None
                     if src is None or not self.same_eff(src[1], eff):
-                        ctx.violation({**case, "stored_for": self.spec_call(*calls[src[0]]) if src else None},
+                        sf = self.spec_call(*calls[src[0]]) if src else None
+                        ctx.violation({**case, "stored_for": sf, "a": _call_spec(case["args"], case["kwargs"]),
+                                       "b": _call_spec(sf["args"], sf["kwargs"]) if sf else None},
                                       f"memoize({cname}) returned the result stored for a call with different effective arguments")
                     elif (len(calls[src[0]][0]), list(calls[src[0]][1])) != (len(args_i), list(kw_i)):
                         ctx.count("calls:memoize:hit-across-keyword-order")
                 ctx.count(f"calls:memoize:{cname}:calls", len(calls))
                 if cname == "simple":
-                    self.model_memo(params, d_idx, calls, hits)
+                    hits_simple = hits
         return self
+
+    # ------------------------------------------------------------------------------------------ memoize: the layout of a call
+    def varcall_stream(self, n_groups, n_base):  # noqa: C901, PLR0912, PLR0915
+        """Functions that take a value positionally AND by keyword (`*args, **kwargs`; `a, b=…, *args, **kwargs`; `x, label=None,
+        **options`), called with base calls and with their `call_lookalikes`: the same leaves laid out differently over
+        positionals and keywords.  Judged on the implementation: a stored result comes back only for a call with the same
+        effective arguments (`inspect.Signature.bind` of the real function); the same call again, also with its keywords in
+        another order, is a hit.  Compared with the model: the key memoize really used (RecordingCache) with `memoKey`, the hit
+        pattern with the memo table over `(args, kwargs)`."""
+        ctx, rng = self.ctx, self.rng
+        pool = [i for i in self.idx if self.pvs[i] is not None] or self.idx
+        for gi in range(n_groups):
+            kind = ["var", "opt", "mixed", "var"][gi % 4]
+            self.new_sub()
+            sub = [i for i in self.sub if self.pvs[i] is not None] or [rng.choice(pool)]
+            d_b = rng.choice(sub)
+            small = [["int", 1], ["int", 2], ["list", [["int", 0]]], ["list", [["float", 0.5]]], ["str", "label"], ["none"]]
+            calls = []                                             # (arg specs, {name: spec})
+            for _ in range(n_base):
+                pick = lambda: self.specs[rng.choice(sub)] if rng.random() < 0.5 else rng.choice(small)  # noqa: E731
+                A = [pick() for _ in range(rng.choice([1, 1, 2, 2, 3] if kind != "var" else [0, 1, 1, 2, 3]))]
+                if kind == "opt":
+                    A = A[:rng.choice([1, 2])]
+                names = rng.sample(KW_NAMES if kind != "mixed" else KW_NAMES[2:], rng.choice([0, 1, 1, 2]))
+                K = {n: pick() for n in names}
+                if kind == "opt" and len(A) == 2:
+                    K.pop("label", None)
+                group = [(A, K)] + call_lookalikes(rng, A, K)
+                rng.shuffle(group)
+                group = group[:7] + [(A, K)]
+                if len(K) > 1:
+                    ns = list(K)
+                    rng.shuffle(ns)
+                    group.append((A, {n: K[n] for n in ns}))       # the same call, keywords in another order: a hit
+                calls += group
+            sig = None
+            hits_simple, keys = None, None
+            for cname, cache in self.caches() + [("recording", RecordingCache())]:
+                log = []
+                f = make_varfunc(kind, self.vals[d_b], log)
+                sig = sig or inspect.signature(f)
+                g = memoize(cache=cache)(f)
+                stored, hits, made = [], [], []                    # made: the calls Python's binding accepts, in order
+                keys_here = []
+                for A, K in calls:
+                    try:
+                        args = [V.build(x) for x in A]
+                        kwargs = {n: V.build(x) for n, x in K.items()}
+                        ba = sig.bind(*args, **kwargs)
+                        ba.apply_defaults()
+                    except TypeError:
+                        continue
+                    eff = dict(ba.arguments)
+                    case = {"kind": "memo-call", "cache": cname, "sig": kind, "default_b": self.specs[d_b], "args": A, "kwargs": K}
+                    before = len(log)
+                    marks = (len(cache.asked), len(cache.stored)) if cname == "recording" else None
+                    try:
+                        res = g(*args, **kwargs)
+                    except Exception as e:  # noqa: BLE001
+                        ctx.violation(case, f"memoized call raised {pfimport.exc_enum(e)}")
+                        continue
+                    made.append((A, K))
+                    if marks is not None:
+                        keys_here.append(cache.key_of_last_call(*marks))
+                    ctx.record({"kind": "memo-call", "sig": kind, "args": A, "kwargs": K}, nontrivial=True)
+                    if len(log) > before:
+                        hits.append(False)
+                        for A0, K0, _e0 in (stored if cname != "disk" else []):
+                            if (len(A0) == len(args) and K0.keys() == K.keys() and all(V.py_same(V.build(x), y) for x, y in zip(A0, args))
+                                    and all(V.py_same(V.build(K0[n]), kwargs[n]) for n in K)
+                                    and (not _has_obj([A0, A, list(K0.values()), list(K.values())])
+                                         or V.dumps([A0, [K0[n] for n in K]]) == V.dumps([A, [K[n] for n in K]]))):
+                                ctx.violation({**case, "earlier": {"args": A0, "kwargs": K0}}, f"memoize({cname}) recomputed a call that passes "
+                                              "the same values in the same way as a stored call (equal values, different keys)")
+                                break
+                        stored.append((A, K, eff))
+                        continue
+                    hits.append(True)
+                    ctx.count(f"calls:varcall:{cname}:hit")
+                    src = stored[res.n] if isinstance(res, Res) and res.n < len(stored) else None
+                    if src is None or not self.same_eff(src[2], eff):
+                        ctx.violation({**case, "stored_for": {"args": src[0], "kwargs": src[1]} if src else None,
+                                       "a": _call_spec(A, K), "b": _call_spec(src[0], src[1]) if src else None},
+                                      f"memoize({cname}) returned the result stored for a call with different effective arguments")
+                    elif (len(src[0]), list(src[1])) != (len(A), list(K)):
+                        ctx.count("calls:varcall:hit-across-keyword-order-or-passing-style")
+                ctx.count(f"calls:varcall:{cname}:calls", len(made))
+                if cname == "simple":
+                    hits_simple, made_simple = hits, made
+                if cname == "recording":
+                    keys = keys_here
+                    if made != made_simple:
+                        keys = None
+            self.model_varcalls(kind, made_simple, hits_simple, keys)
+        return self
+
+    def model_varcalls(self, kind, calls, hits, keys):
+        ctx = self.ctx
+        try:
+            enc_calls = [([self.enc.enc(V.build(x)) for x in A], [(n, self.enc.enc(V.build(x))) for n, x in K.items()]) for A, K in calls]
+        except Exception:  # noqa: BLE001   (a value outside the modelled fragment)
+            ctx.count("calls:varcall:sequence-outside-model")
+            return
+        args = [{"k": "tuple", "x": [{"k": "tuple", "x": a}, {"k": "dict", "x": [{"k": "tuple", "x": [{"s": cp(n)}, v]} for n, v in k]}]}
+                for a, k in enc_calls]
+
+        def cb_memo(resp):
+            if any(not isinstance(r, list) for r in resp):
+                ctx.skip("memo-sequence-with-unspecified-key")
+                return
+            if [r[1] for r in resp] != hits:
+                ctx.violation({"kind": "memo-call-model", "sig": kind, "calls": [{"args": A, "kwargs": K} for A, K in calls]},
+                              "memoize hit pattern differs from the model's memo table over (args, kwargs)", found_input=False,
+                              item="correspondence:memoize-calls", impl=hits, model=[r[1] for r in resp])
+            ctx.count("calls:varcall:sequences-compared-with-model")
+        self.reqs.append(({"m": "memo", "a": {"args": args}}, cb_memo))
+        if keys is None:
+            return
+        mk = [{"args": a, "kwargs": [[cp(n), v] for n, v in k]} for a, k in enc_calls]
+
+        def cb_keys(resp):
+            for (A, K), (st, key), r in zip(calls, keys, resp):
+                if "unspec" in r:
+                    continue
+                if st == "none" or ("err" in r) != (st == "exc") or (st == "ok" and not same_key_json(self.enc, key, r)):
+                    ctx.violation({"kind": "memo-key-model", "sig": kind, "args": A, "kwargs": K}, "the key memoize hands to its cache differs "
+                                  "from the model's memoKey = to_hashable((args, kwargs))", found_input=False,
+                                  item="correspondence:memo-key", impl=repr(key)[:300], model=r)
+            ctx.count("calls:varcall:keys-compared-with-model", len(calls))
+        self.reqs.append(({"m": "memokeys", "a": {"calls": mk}}, cb_keys))
 
     def caches(self):
         return [("simple", SimpleCache()), ("lru", LRUCache(max_size=10_000, shared=False)),
@@ -250,11 +506,15 @@ class CallCheck:
         # the key itself and Python's binding, for a sample of the calls
         sample = calls[:12]
         mk = [{"args": [self.pvs[i] for i in a], "kwargs": [[cp(n), self.pvs[i]] for n, i in k.items()]} for a, k in sample]
-        real = [V.describe(to_hashable, (tuple(self.vals[i] for i in a), {n: self.vals[i] for n, i in k.items()})) for a, k in sample]
+        real = self.real_keys or [V.describe(to_hashable, (tuple(self.vals[i] for i in a), {n: self.vals[i] for n, i in k.items()})) for a, k in sample]
 
         def cb_keys(resp):
             for (a, k), (st, key), r in zip(sample, real, resp):
                 if "unspec" in r:
+                    continue
+                if st == "none":
+                    ctx.violation({"kind": "memo-key-model", **self.spec_call(a, k)}, "memoize did not hand any key to its cache for this call",
+                                  found_input=False, item="correspondence:memo-key", model=r)
                     continue
                 if ("err" in r) != (st == "exc") or (st == "ok" and not same_key_json(V.Encoder(), key, r)):
                     # encode with the shared NaN identities
@@ -308,6 +568,53 @@ class CallCheck:
                                   "the model's bindArgs differs from inspect.Signature.bind (the model of 'effective arguments' is wrong)",
                                   found_input=False, item="correspondence:bind", impl=str(exp)[:200], model=r)
         self.reqs.append(({"m": "bind", "a": {"calls": cases}}, cb))
+        return self
+
+    def bindsig_stream(self, n):
+        """`bindSig` (Model/HashableCalls.lean) against `inspect.Signature.bind` for signatures with `*args` / `**kwargs`"""
+        ctx, rng = self.ctx, self.rng
+        modelled = [i for i in self.idx if self.pvs[i] is not None]
+        if not modelled:
+            return self
+        cases, expect = [], []
+        for _ in range(n):
+            params = ["a", "b"][:rng.randint(0, 2)]
+            with_default = params[len(params) - rng.randint(0, len(params)):]
+            vp, vk = rng.random() < 0.6, rng.random() < 0.6
+            d_idx = {p: rng.choice(modelled) for p in with_default}
+            ns = {f"_d_{p}": self.vals[i] for p, i in d_idx.items()}
+            parts = [f"{p}=_d_{p}" if p in d_idx else p for p in params] + (["*args"] if vp else []) + (["**kwargs"] if vk else [])
+            exec(f"def f({', '.join(parts)}):\n    pass\n", ns)  # noqa: S102
+            sig = inspect.signature(ns["f"])
+            args_i = [rng.choice(modelled) for _ in range(rng.choice([0, 1, 1, 2, 3, 4]))]
+            kw_i = {k: rng.choice(modelled) for k in rng.sample(["a", "b", "c", "z"], rng.choice([0, 0, 1, 2, 3]))}
+            ids = {id(self.vals[i]): i for i in modelled}
+            try:
+                ba = sig.bind(*[self.vals[i] for i in args_i], **{k: self.vals[i] for k, i in kw_i.items()})
+                ba.apply_defaults()
+                exp = ([(p, id(ba.arguments[p])) for p in params], [id(x) for x in ba.arguments.get("args", ())],
+                       [(k, id(v)) for k, v in ba.arguments.get("kwargs", {}).items()])
+            except TypeError:
+                exp = None
+            cases.append({"params": [{"name": cp(p), **({"default": self.pvs[d_idx[p]]} if p in d_idx else {})} for p in params],
+                          "vp": vp, "vk": vk, "args": [self.pvs[i] for i in args_i], "kwargs": [[cp(k), self.pvs[i]] for k, i in kw_i.items()]})
+            expect.append((exp, ids, parts, args_i, kw_i))
+
+        def cb(resp):
+            for r, (exp, ids, parts, args_i, kw_i) in zip(resp, expect):
+                ctx.count("calls:bindsig:rejected" if exp is None else "calls:bindsig:bound")
+                if exp is None:
+                    ok = "rejected" in r
+                else:
+                    pv = lambda v: V.dumps(self.pvs[ids[v]])  # noqa: E731
+                    ok = ("bound" in r and [[b[0], V.dumps(b[1])] for b in r["bound"]] == [[cp(k), pv(v)] for k, v in exp[0]]
+                          and [V.dumps(x) for x in r["star"]] == [pv(v) for v in exp[1]]
+                          and [[b[0], V.dumps(b[1])] for b in r["kw"]] == [[cp(k), pv(v)] for k, v in exp[2]])
+                if not ok:
+                    ctx.violation({"kind": "bind-model", "params": parts, **self.spec_call(args_i, kw_i)},
+                                  "the model's bindSig differs from inspect.Signature.bind (the model of 'effective arguments' is wrong)",
+                                  found_input=False, item="correspondence:bindsig", impl=str(exp)[:200], model=r)
+        self.reqs.append(({"m": "bindsig", "a": {"calls": cases}}, cb))
         return self
 
     # ------------------------------------------------------------------------------------------ compute_cache_key
@@ -367,8 +674,11 @@ class CallCheck:
                     eqk = V.keq(keyx, keyy)
                     if eqk:
                         ctx.count("calls:pipekey:equal-keys")
-                    if eqk != same and refl:
-                        ctx.violation({**case_x, "other": {"out": oy, "roots": ry, "kwargs": {k: self.specs[i] for k, i in ky.items()}}},
+                    same_exp = same and all(self.same_key_expected(kx[r], ky[r]) for r in rx)     # (pickle digests: see same_key_expected)
+                    if ((eqk and not same) or (not eqk and same_exp)) and refl:
+                        ctx.violation({**case_x, "other": {"out": oy, "roots": ry, "kwargs": {k: self.specs[i] for k, i in ky.items()}},
+                                       **({"a": ["list", [self.specs[kx[r]] for r in rx]], "b": ["list", [self.specs[ky[r]] for r in ry]]}
+                                          if eqk and ox == oy and rx == ry else {})},
                                       "compute_cache_key: " + ("equal keys for calls that differ in output name, root arguments or a root value"
                                                                if eqk else "different keys for the same output and the same root values"),
                                       impl=[repr(keyx)[:200], repr(keyy)[:200]])
@@ -428,7 +738,11 @@ class CallCheck:
                 continue
             out = "z" if two else "y"
             log = log2 if two else log1
-            roots = list(p.root_args(out))
+            try:
+                roots = list(p.root_args(out))
+            except Exception as e:  # noqa: BLE001
+                ctx.skip(f"pipeline-root-args:{type(e).__name__}")
+                continue
             sub = self.sub
             stored, hits, model_calls = [], [], []
             for _c in range(n_calls):
@@ -465,7 +779,7 @@ class CallCheck:
                     ctx.count("calls:pipeline:no-key-upstream-default")
                 if len(log) > before:
                     for _n, e0 in stored:
-                        if keyed and ctype != "disk" and all(self.same(e0[k], eff[k]) for k in eff):
+                        if keyed and ctype != "disk" and all(self.same_key_expected(e0[k], eff[k]) for k in eff):
                             ctx.violation({**case, "earlier": {k: self.specs[i] for k, i in e0.items()}},
                                           f"pipeline cache ({ctype}) recomputed a call with the same root values as a stored call")
                             break
@@ -477,7 +791,9 @@ class CallCheck:
                 ctx.count(f"calls:pipeline:{ctype}:hit")
                 src = next((e0 for n, e0 in stored if isinstance(res, Res) and n == res.n), None)
                 if src is None or not all(self.same(src[k], eff[k]) for k in eff):
-                    ctx.violation({**case, "stored_for": {k: self.specs[i] for k, i in src.items()} if src else None},
+                    ctx.violation({**case, "stored_for": {k: self.specs[i] for k, i in src.items()} if src else None,
+                                   "a": ["dict", [[["str", k], self.specs[i]] for k, i in sorted(eff.items())]],
+                                   "b": ["dict", [[["str", k], self.specs[i]] for k, i in sorted(src.items())]] if src else None},
                                   f"pipeline cache ({ctype}) returned the result stored for different root values")
             ctx.count(f"calls:pipeline:{ctype}:calls", n_calls)
             if ctype != "disk" and all(e is not None and all(self.pvs[i] is not None for i in e.values()) for e in model_calls) and model_calls:
@@ -505,8 +821,14 @@ class CallCheck:
             ctype = ["simple", "lru", "hybrid"][mi % 3]
             log = []
             f = make_func(["a", "b"], {}, log)
-            p = Pipeline([PipeFunc(f, "y", mapspec="a[i] -> y[i]", cache=True)], cache_type=ctype,
-                         cache_kwargs={"max_size": 10_000} if ctype != "simple" else None)
+            log_w = []
+            f_w = make_func(["a", "b"], {}, log_w)             # a second cached function of the SAME arguments: the key must tell them apart
+            try:
+                p = Pipeline([PipeFunc(f, "y", mapspec="a[i] -> y[i]", cache=True), PipeFunc(f_w, "w", mapspec="a[i] -> w[i]", cache=True)],
+                             cache_type=ctype, cache_kwargs={"max_size": 10_000} if ctype != "simple" else None)
+            except Exception as e:  # noqa: BLE001
+                ctx.skip(f"map-pipeline-construction:{type(e).__name__}")
+                continue
             sub = rng.sample(self.idx, min(len(self.idx), max(3, n_elems // 3)))
             el = [rng.choice(sub) for _ in range(n_elems)]
             if mi % 3 == 0:
@@ -523,12 +845,22 @@ class CallCheck:
                 ctx.violation(case, f"map with a cache raised {pfimport.exc_enum(e)}")
                 continue
             ctx.record(case, nontrivial=True)
+            try:
+                ys, ws = list(r["y"].output), list(r["w"].output)
+                if any(w is y for w in ws for y in ys):
+                    ctx.violation({**case, "outputs": ["y", "w"]}, f"map cache ({ctype}) returned for one function the result stored for another "
+                                  "function called with the same arguments")
+                elif len(log_w) == 0 and ws:
+                    ctx.violation({**case, "outputs": ["y", "w"]}, f"map cache ({ctype}): the second function was never computed")
+            except Exception as e:  # noqa: BLE001
+                ctx.violation(case, f"map with a cache: reading the outputs raised {pfimport.exc_enum(e)}")
+                continue
             first = {}
             for k, n in enumerate(ns):
                 if n not in first:
                     first[n] = k
                     for n0, k0 in first.items():
-                        if n0 != n and self.same(el[k0], el[k]):
+                        if n0 != n and self.same_key_expected(el[k0], el[k]):
                             ctx.violation({**case, "i": k0, "j": k}, f"map cache ({ctype}) recomputed an element equal to an earlier one")
                     continue
                 ctx.count(f"calls:map:{ctype}:hit")
